@@ -11,7 +11,8 @@ ROOT = "/verif"
 EROOT = os.environ.get("EVAL_ROOT", ROOT)
 REPO = os.environ.get("EVAL_REPO", "/repo")
 PREFIX = os.environ.get("EVAL_PREFIX", "")
-EXTRA = {"C01-C": ["C07"], "C02-C": ["C16", "C10"], "C03-C": ["C16", "C10"], "C05-D": ["C16", "C10"], "C10-C": ["C16"], "C11-D": ["C16", "C10"], "C06-C": ["C17"], "C13-C": ["C17"], "C14-C": ["C17"],
+EXTRA = {"C19-O": ["C09"], "C10-O": ["C18"], "C06-O": ["C07", "C01"], "C07-O": ["C06", "C01"], "C13-O": ["C14"], "C17-O": ["C18"], "C18-O": ["C10"], "C16-O": ["C10"], "C04-O": ["C08"], "C08-O": ["C04"], "C12-O": ["C02"], "C05-O": ["C15"], "C15-O": ["C05"],
+         "C01-C": ["C07"], "C02-C": ["C16", "C10"], "C03-C": ["C16", "C10"], "C05-D": ["C16", "C10"], "C10-C": ["C16"], "C11-D": ["C16", "C10"], "C06-C": ["C17"], "C13-C": ["C17"], "C14-C": ["C17"],
          "C20-C": ["C17"], "C12-D": ["C17"], "C07-D": ["C17"], "C01-D": ["C17", "C07"], "C10-D": ["C17"], "C08-C": ["C18"], "C18-D": ["C08"], "C16-C": ["C17"], "C19-C": ["C02"], "C09-D": ["C03"], "C05-C": ["C11"],
          "C02-E": ["C10"], "C02-F": ["C03", "C09"], "C06-E": ["C01", "C07"], "C06-F": ["C17"], "C07-E": ["C01"], "C07-F": ["C13"], "C08-E": ["C18", "C10", "C16"], "C08-F": ["C15"],
          "C09-E": ["C02"], "C10-E": ["C08", "C16"], "C10-F": ["C02"], "C16-E": ["C17"], "C16-F": ["C18", "C05"], "C18-E": ["C10"], "C18-F": ["C02", "C04"], "C04-F": ["C08"],
